@@ -15,6 +15,11 @@ RULE = (
     "public API, executed by iteration.Engine.execute and compared as an ordered list with the reference model "
     "evaluated on the call sequence.  A case is non-trivial if it applies >= 2 operations; distinct = distinct "
     "operation-type skeletons x set of rewrite kinds (merge/elision) the library performed."
+    "  Since round 5-7 of the seeded-change validation the programs also contain user-defined operations and "
+    "markers (a count-dependent RowFilter, an order-dependent Reordering, a MarkerRelation subclass; run by an "
+    "iteration.Engine subclass implementing apply_custom_unary_operation), chains of a program with its twin over "
+    "equal-named leaves, two branches adding the same column over one shared operand, and leaves whose payload is "
+    "a lazily chained iterable; result rows are collected as objects before they are compared. "
 )
 ASSUMPTIONS = [
     "reference model vmon/model.py (full-row first-occurrence deduplication, stable multi-key sort via comparator)",
